@@ -86,27 +86,84 @@ impl vstd::std_specs::convert::TryFromSpecImpl<Bytes> for ZmqGreeting {
 //@ end
 
 // ---- command (src/codec/command.rs): parser is outside Verus (byte-string patterns) ----
-/// the octets a command value was parsed from (ghost link between wire and value)
-pub uninterp spec fn cmd_body(c: &ZmqCommand) -> Seq<u8>;
-/// RFC 23 validity of a command body (name-size name *property); kept abstract in this unit
-pub uninterp spec fn rfc_command_ok(body: Seq<u8>) -> bool;
+// RFC 23 command grammar:  command-body = command-name-size(1) command-name *property
+//   property = name-size(1) name value-size(4, network order) value
+// The only command of ZMTP 3.0/NULL is READY.  (The library accepts any UTF-8 property name; RFC
+// name-char is narrower - the leniency is not part of any listed property.)
+pub uninterp spec fn utf8_ok(s: Seq<u8>) -> bool;
+pub open spec fn ready_name() -> Seq<u8> { seq![0x52u8, 0x45, 0x41, 0x44, 0x59] }
+pub open spec fn drop_first(s: Seq<u8>, n: int) -> Seq<u8> { s.subrange(n, s.len() as int) }
+pub open spec fn rfc_props_ok(s: Seq<u8>) -> bool
+    decreases s.len()
+{
+    if s.len() == 0 { true }
+    else {
+        let pl = s[0] as int;                       // name-size
+        let s1 = drop_first(s, 1);
+        if s1.len() < pl { false }
+        else {
+            let name = s1.subrange(0, pl);
+            let s2 = drop_first(s1, pl);
+            if !utf8_ok(name) || s2.len() < 4 { false }
+            else {
+                let vl = be32_val(s2.subrange(0, 4)) as int;   // value-size, network order
+                let s3 = drop_first(s2, 4);
+                if s3.len() < vl { false } else { rfc_props_ok(drop_first(s3, vl)) }
+            }
+        }
+    }
+}
+pub open spec fn rfc_command_ok(body: Seq<u8>) -> bool {
+    &&& body.len() >= 1
+    &&& drop_first(body, 1).len() >= body[0]
+    &&& drop_first(body, 1).subrange(0, body[0] as int) == ready_name()
+    &&& rfc_props_ok(drop_first(drop_first(body, 1), body[0] as int))
+}
+
+// A-REGION-2 (D5): `match &buf[..command_len] { b"READY" => .., _ => return Err(..) }` uses a byte-string
+// slice pattern, which crashes Verus.  The match is replaced by this stub; its ASSUMED contract carries the
+// slice's panic condition as precondition.  Kani `cmd_name_only` checks the region on the real function.
+#[verifier::external_body]
+fn assumed_command_name(buf: &Bytes, command_len: usize) -> (r: Option<ZmqCommandName>)
+    requires command_len <= b_view(buf).len(),
+    ensures r is Some <==> b_view(buf).subrange(0, command_len as int) == ready_name(),
+            r matches Some(c) ==> c is READY,
+{ unimplemented!() }
+
+#[verifier::external_type_specification]
+#[verifier::external_body]
+pub struct ExFromUtf8Error(std::string::FromUtf8Error);
+pub assume_specification[ String::from_utf8 ](v: Vec<u8>) -> (r: Result<String, std::string::FromUtf8Error>)
+    ensures r is Ok <==> utf8_ok(v@);
+pub assume_specification<T: Clone>[ <[T]>::to_vec ](s: &[T]) -> (r: Vec<T>)
+    ensures r@ == s@;
 
 impl vstd::std_specs::convert::TryFromSpecImpl<Bytes> for ZmqCommand {
     open spec fn obeys_try_from_spec() -> bool { false }
     open spec fn try_from_spec(v: Bytes) -> Result<Self, CodecError> { arbitrary() }
 }
-// ASSUMED contract (the parser's panic-freedom is checked by Kani `cmd_parse_nopanic`, bounded)
 //@ item src/codec/command.rs :: impl TryFrom<Bytes> for ZmqCommand
 //@ fn try_from
 //@ attr
-//@|    #[verifier::external_body]
+//@|    #[verifier::loop_isolation(false)]
 //@ ret r
+//@ region "let command = match &buf[..command_len]"
+//@|        let command = match assumed_command_name(&buf, command_len) { Some(c) => c, None => return Err(CodecError::Command("Unknown command received")) }
 //@ spec
 //@|        ensures
-//@|            r matches Ok(c) ==> rfc_command_ok(b_view(&buf)) && cmd_body(&c) == b_view(&buf),
-//@|            r is Err ==> !rfc_command_ok(b_view(&buf)),
+//@|            r is Ok <==> rfc_command_ok(b_view(&buf)),
+//@|            r matches Ok(c) ==> c.name is READY,
+//@ loop 1
+//@|            invariant
+//@|                rfc_props_ok(b_view(&buf)) == rfc_props_ok(drop_first(drop_first(b_view(&old_buf), 1), b_view(&old_buf)[0] as int)),
+//@|                b_view(&old_buf).len() >= 1,
+//@|                drop_first(b_view(&old_buf), 1).len() >= b_view(&old_buf)[0],
+//@|                drop_first(b_view(&old_buf), 1).subrange(0, b_view(&old_buf)[0] as int) == ready_name(),
+//@|                command is READY,
+//@|            decreases b_view(&buf).len(),
+//@ hint start
+//@|        let ghost old_buf = buf;
 //@ end
-
 
 impl vstd::std_specs::convert::FromSpecImpl<Bytes> for ZmqMessage {
     open spec fn obeys_from_spec() -> bool { false }
@@ -122,7 +179,7 @@ impl vstd::std_specs::convert::FromSpecImpl<Bytes> for ZmqMessage {
 pub open spec fn item_matches(m: Message, it: SItem) -> bool {
     match (m, it) {
         (Message::Greeting(g), SItem::Greeting(bytes)) => rfc_greeting_parse(bytes) == Some(g),
-        (Message::Command(c), SItem::Command(body)) => cmd_body(&c) == body,
+        (Message::Command(c), SItem::Command(body)) => c.name is READY && rfc_command_ok(body),
         (Message::Message(msg), SItem::Message(frames)) => msg.bodies() == frames,
         _ => false,
     }
